@@ -280,6 +280,9 @@ pub fn emit_recv(recvs: &[Recv], r: &Recv, out: &mut String) {
             out.push_str(&format!("pub struct {name};\n"));
             out.push_str(&format!("impl ::vf_support::Dump for {name} {{ fn dump(&self) -> ::vf_support::Value {{ let mut o = ::vf_support::serde_json_map(); o.insert(String::from(\"{name}\"), ::vf_support::Value::Object(::vf_support::serde_json_map())); ::vf_support::Value::Object(o) }} }}\n"));
             out.push_str(&format!("impl ::core::default::Default for {name} {{ fn default() -> Self {{ {name} }} }}\n"));
+            if r.from_none {
+                out.push_str(&format!("fn fnone_{}() -> Option<{name}> {{ Some(::core::default::Default::default()) }}\n", r.id));
+            }
         }
         Shape::Newtype(_) if !g.is_empty() => {
             // generic wrapper: compile-only (the parameter stands for the inner receiver)
@@ -293,6 +296,9 @@ pub fn emit_recv(recvs: &[Recv], r: &Recv, out: &mut String) {
             out.push_str(&format!("pub struct {name}(pub {});\n", rust_ty(recvs, t)));
             out.push_str(&format!("impl ::vf_support::Dump for {name} {{ fn dump(&self) -> ::vf_support::Value {{ let mut o = ::vf_support::serde_json_map(); o.insert(String::from(\"{name}\"), ::vf_support::Dump::dump(&self.0)); ::vf_support::Value::Object(o) }} }}\n"));
             out.push_str(&format!("impl ::core::default::Default for {name} {{ fn default() -> Self {{ {name}(::core::default::Default::default()) }} }}\n"));
+            if r.from_none {
+                out.push_str(&format!("fn fnone_{}() -> Option<{name}> {{ Some(::core::default::Default::default()) }}\n", r.id));
+            }
         }
         Shape::Enum(vars) => {
             out.push_str(&format!("pub enum {name} {{\n"));
